@@ -2,11 +2,17 @@
 
 Relations
   api  : Haplotype.transform / Haplotypes.transform / HaplotypeAncestry.transform /
-         HaplotypesAncestry.transform called on matrices and haplotype sets built in memory
+         HaplotypesAncestry.transform called on ONE genotypes object and ONE haplotype set (built in memory
+         or read from a written .hap file) before and after every step of an operation sequence
+         (Haplotypes.sort, Haplotype.sort, Haplotypes.subset in place / as a new object, Haplotypes.read again):
+         after every step the single-haplotype answers and the whole-set answer are compared with the
+         cell-by-cell specification (hence with each other) and with the model of the sequence
   file : transform_haps (directly or through the `haptools transform` CLI) on written
-         VCF.gz(+tbi) / PGEN inputs, .hap(.gz+tbi) files, POP fields or a .bp file whose
-         samples are permuted, --id / --sample / --region subsets; the written VCF / PGEN
-         is read back with pysam / pgenlib
+         VCF.gz(+tbi) / plain un-indexed VCF / PGEN inputs whose records are position-sorted, interleave the
+         chromosomes (1,2,1,2,...), are shuffled or descending; .hap(.gz+tbi) files; POP fields AND a .bp file
+         (samples permuted) for the same logical data; --id / --sample / --region subsets; the written
+         VCF / PGEN is read back with pysam / pgenlib.  The runs of one input (POP source, .bp source, VCF /
+         PGEN input and output) must give equal answers.
 """
 import os
 import shutil
@@ -20,21 +26,29 @@ from .core import Relation, err_kind
 PROP = "C04"
 CLAIMED = True
 COQ_MODULES = ["C04_Check", "C04_CheckSeq", "C04_Proofs", "C04_ProofsSet", "C04_ProofsFile", "C04_ProofsSpec", "C04_ProofsAnc",
-               "C04_Legacy", "C04_ProofsPerm"]
+               "C04_Legacy", "C04_ProofsPerm", "C04_ProofsDup", "C04_ProofsSeq", "C04_ProofsBp", "C04_ProofsOrder",
+               "C04_ProofsTotal"]
 PROPERTY_MODULE = "C04_Property"
 ALLOWED_AXIOMS = []
 RULE = (
     "api: 1-6 samples x 1-8 variants with 2-4 alleles, 1-5 haplotypes (+ interleaved repeats) of 1-4 alleles drawn "
-    "from REF and every ALT, mostly copied from a real strand so that matches occur; non-trivial = some cell of the "
+    "from REF and every ALT, mostly copied from a real strand so that matches occur; 60% of the cases carry a history "
+    "of 1-4 operations on the one Haplotypes object (sort / Haplotype.sort / subset / re-read; one class is the "
+    "boundary sequence: V lines against the positional order, transform, sort, transform) with all transforms "
+    "repeated after every operation; non-trivial = some cell of the "
     "result is 1 and some is 0, or an ancestry label is absent, or a variant/allele is absent. file: the same kind of "
-    "content written as VCF.gz+tbi and PGEN (+ POP fields / a .bp file with permuted and extra samples), run through "
+    "content written as VCF.gz+tbi / plain un-indexed VCF / PGEN with the records position-sorted, chromosome-"
+    "interleaved, shuffled or descending (+ POP fields and a .bp file with permuted and extra samples for the same "
+    "data), run through "
     "transform_haps or the CLI with --region/--id/--sample; non-trivial = an output record with both 0 and 1 cells, or "
     "a haplotype omitted. Distinct = distinct canonical JSON."
 )
 TRUSTED = [
     "pysam/bgzip/tabix, cyvcf2 and pgenlib store and return the records, samples and GT/POP values they are given "
     "(inputs are written by the harness with pysam/pgenlib, outputs read back with pysam/pgenlib)",
-    "strings (IDs, alleles, labels, contigs, sample names) are interned to integers by the harness; only equality matters",
+    "strings (IDs, alleles, labels, contigs, sample names) are interned to integers by the harness; only equality "
+    "matters, except in the api relation where chromosome names and IDs are also ordered (Haplotypes.sort): there the "
+    "strings are interned in sorted order, so the integer order is Python's string order",
     "region semantics: REF alleles are one base long, so htslib's overlap test and the PGEN reader's position test coincide",
     "'reported' is observed as a WARNING+ log record of haptools.transform that names an absent variant / omitted "
     "haplotype or says that variants could not be found",
@@ -47,6 +61,10 @@ ASSUMPTIONS = [
     "a region or --id is only combined with an indexed (.hap.gz + .tbi) haplotype file whose haplotypes all have >= 1 "
     "variant (an un-indexed file ignores the region; the indexed reader cannot fetch a haplotype without V lines)",
     "PGEN input is used only when at least one wanted variant is found (the empty-match failure belongs to C08)",
+    "a genotype file whose records are not position-sorted cannot be tabix-indexed: such a VCF is read un-indexed and "
+    "without --region (with ancestry, so that the POP-field run exists), such a PGEN/PVAR also with --region",
+    "api operation sequences: Haplotype.sort is only called on Haplotype entries; the order of Haplotypes.data after an "
+    "operation is observed and must be the model's (agree); the property (holds) is demanded for the observed order",
     "file-level theorems: wf_file (distinct IDs, rectangular POP matrix, the region's contig occurs in the .hap file)",
 ]
 MAXI = 2**31 - 1
@@ -667,13 +685,15 @@ class Api(Relation):
                             yield dict(inp, haps=inp["haps"][:i] + [dict(h, vars=hv)] + inp["haps"][i + 1:])
 
     def signature(self, inp, obs):
-        st = obs.get("set", {}) if isinstance(obs, dict) else {}
-        res = "answers" if "ok" in st else f"raises {st.get('cls', st.get('err'))}"
-        sing = obs.get("single", []) if isinstance(obs, dict) else []
-        errs = sorted({str(o.get("cls", o["err"])) for o in sing if "err" in o})
+        obs = obs if isinstance(obs, dict) else {}
+        steps = [obs] + list(obs.get("steps") or [])
+        sets = [o.get("set", {}) for o in steps]
+        res = "answers" if all("ok" in st for st in sets) else \
+            "raises " + ",".join(sorted({str(st.get("cls", st.get("err"))) for st in sets if "ok" not in st}))
+        errs = sorted({str(o.get("cls", o["err"])) for x in steps for o in x.get("single", []) if "err" in o})
         hist = ",".join(o[0] for o in (inp.get("ops") or [])) or "none"
         return (f"api ancestry={'yes' if inp['anc'] else 'no'}: set-wise transform {res}; single transforms "
-                f"{'raise ' + ','.join(errs) if errs else 'all answer'}; operations before the last transform: {hist}")
+                f"{'raise ' + ','.join(errs) if errs else 'all answer'}; operations between the transforms: {hist}")
 
 
 # ---------------------------------------------------------------------------
@@ -1417,14 +1437,21 @@ LEVEL_TEXT = (
     "Coq theorems over all genotype matrices, haplotype sets and ancestry labelings (no size bound) about a Gallina model "
     "of Haplotype.transform, Haplotypes.transform, their ancestry variants and transform_haps; the model is tied to the "
     "code on every run by evaluating, inside Coq, model-vs-implementation agreement and the property's cell-by-cell "
-    "checker on generated in-memory calls and on transform_haps / CLI runs over written VCF.gz, PGEN, .hap and .bp files."
+    "checker on generated in-memory calls (before and after every step of generated operation sequences on one set of "
+    "objects) and on transform_haps / CLI runs over written VCF.gz, un-indexed VCF, PGEN, .hap and .bp files in every "
+    "record order."
 )
 LEVEL_NOTE = (
     "Trusted: Coq kernel/vm_compute; the hand-written model (validated only differentially); htslib/cyvcf2/pysam/pgenlib "
     "as stores of records; interning of strings. Proved for the model, all sizes: single transforms = cell-by-cell "
     "specification, set-wise = single, transform_haps output = file-level specification f_expected (records, sample "
-    "order, cells, ancestry by sample name), POP fields = .bp when they say the same, omitted => warned; the boolean "
-    "checkers evaluated on the implementation's output are proved sound. Not modelled: missing/unphased genotypes, "
+    "order, cells, ancestry by sample name), POP fields = .bp when they say the same (closed with C05's model of "
+    "population_array for every record order), the model answers f_expected wherever the checker demands an answer, the "
+    "result is invariant under every permutation of the genotype records and of the V lines and is column-wise in the H "
+    "lines, no history of sort/subset/re-read changes a single or whole-set answer, duplicate IDs => ValueError, "
+    "omitted => warned; the boolean "
+    "checkers evaluated on the implementation's output are proved sound. Not modelled: duplicate variant IDs in a "
+    "genotype FILE (Genotypes.read stops after as many matching records as IDs were asked for), missing/unphased genotypes, "
     "--discard-missing, --maf, --chunk-size, the text of log messages; region semantics only for one-base REF alleles."
 )
 TECHNIQUE = "Coq proof by induction on haplotype/variant lists + vm_compute-evaluated correspondence against the implementation"
